@@ -386,8 +386,12 @@ def case_split1d(chk, ctx, xx, phi):
     PM = ctx['dadi'].PhiManip; driver = ctx['driver']
     inp = dict(op='split1', grid=np.asarray(xx).tolist(), phi=np.asarray(phi).tolist())
     xx = np.asarray(xx, dtype=float); phi = np.asarray(phi, dtype=float)
-    out = PM.phi_1D_to_2D(xx, phi.copy())
     chk.l3(('phi_1D_to_2D', len(xx)))
+    try:
+        out = PM.phi_1D_to_2D(xx, phi.copy())
+    except Exception as e:
+        chk.fail('newpop_marginal:phi_1D_to_2D:raises:%s' % type(e).__name__, 'phi_1D_to_2D raises %r on a valid grid and density' % (e,), inp)
+        return
     chk.stat('fn:phi_1D_to_2D')
     if driver is not None and driver.ok():
         ans = driver.ask('c06 split1 %s %s' % (fmt_list(xx), fmt_nd(phi)))
@@ -412,8 +416,12 @@ def case_split2(chk, ctx, which, xx, phi):
     name = 'phi_2D_to_3D_split_%d' % which
     inp = dict(op='split2', which=which, grid=np.asarray(xx).tolist(), shape=list(np.shape(phi)), phi=np.asarray(phi).ravel().tolist())
     xx = np.asarray(xx, dtype=float); phi = np.asarray(phi, dtype=float)
-    out = getattr(PM, name)(xx, phi.copy())
     chk.l3((name, len(xx))); chk.stat('fn:' + name)
+    try:
+        out = getattr(PM, name)(xx, phi.copy())
+    except Exception as e:
+        chk.fail('split_copy:%s:raises:%s' % (name, type(e).__name__), '%s raises %r on a valid grid and density' % (name, e), inp)
+        return
     if driver is not None and driver.ok():
         ans = driver.ask('c06 split2 %d %s %s' % (which, fmt_list(xx), fmt_nd(phi)))
         if not ans.startswith('ok '): chk.k_bad(name, inp, 'array', ans[:200], None)
@@ -440,8 +448,12 @@ def case_remove(chk, ctx, xx, phi, popnum):
     PM = ctx['dadi'].PhiManip; driver = ctx['driver']
     inp = dict(op='remove', popnum=int(popnum), grid=np.asarray(xx).tolist(), shape=list(np.shape(phi)), phi=np.asarray(phi).ravel().tolist())
     xx = np.asarray(xx, dtype=float); phi = np.asarray(phi, dtype=float)
-    out = np.asarray(PM.remove_pop(phi.copy(), xx, popnum))
     chk.l3(('remove_pop', phi.ndim, popnum)); chk.stat('fn:remove_pop')
+    try:
+        out = np.asarray(PM.remove_pop(phi.copy(), xx, popnum))
+    except Exception as e:
+        chk.fail('remove:remove_pop:raises:%s' % type(e).__name__, 'remove_pop raises %r on valid arguments' % (e,), inp)
+        return
     if driver is not None and driver.ok():
         ans = driver.ask('c06 remove %d %s %s' % (popnum, fmt_list(xx), fmt_nd(phi)))
         if not ans.startswith('ok '): chk.k_bad('remove_pop', inp, 'array', ans[:200], None)
@@ -722,14 +734,22 @@ def case_roundoff_corner(chk, ctx, rng, tier):
         d, dest = SPEC[name]
         n = 3 if d == 5 else 4
         g, _ = gen_grid(rng, n, 'exponential')
-        fs = {2: [0.2, 0.2], 3: [0.2, 0.2, 0.2], 4: [0.1, 0.2, 0.3, 0.1]}[d - 1]
+        cands = [{2: [0.2, 0.2], 3: [0.2, 0.2, 0.2], 4: [0.1, 0.2, 0.3, 0.1]}[d - 1]]
+        for _ in range(5):
+            parts = rng.multinomial(int(rng.integers(3, 10)), np.ones(d - 1) / (d - 1))
+            cands.append([float(p_) / 10.0 for p_ in parts])
         grids = [g] * (d if dest is not None else d + 1)
         phi = gen.density(rng, (n,) * d) + 0.5
-        top = 0.0
-        for c in full_coefs_float(name, fs):
-            top = top + c * 1.0
-        chk.stat('roundoff_corner:' + ('above_one' if top > 1.0 else 'at_or_below_one'))
-        case_fn(chk, ctx, name, fs, grids, phi, do_k=True, kinds=dict(props='roundoff_corner'))
+        for fs in cands:
+            # the corner where every parent is fixed (x_m = 1): Σ c_m in floats, in population order and in reverse
+            c = full_coefs_float(name, fs)
+            def seq(v):
+                t = 0.0
+                for x in v: t = t + x
+                return t
+            tops = [seq(c), seq(c[::-1]), seq(c[1:] + c[:1])]
+            chk.stat('roundoff_corner:' + ('above_one' if max(tops) > 1.0 else 'at_or_below_one'))
+            case_fn(chk, ctx, name, fs, grids, phi, do_k=True, kinds=dict(props='roundoff_corner'))
 
 def full_coefs_float(name, fs):
     """the coefficient vector with the remainder computed as the documentation writes it (1 - f1 - f2 - ..), in floats"""
@@ -911,17 +931,19 @@ def run(chk, ctx):
                 'grids (mixed frequencies exactly on grid points, at 0 and at 1), tiny (1e-9), generic floats on a face (round-off of re-computed sums), '
                 'and non-negative vectors whose exact sum exceeds 1 (by a lot, by 1e-6, by 1/64, every entry < 1); single cells of '
                 '_admixture_intermediates with adz inside, on a grid point, 0, 1, 1+ulp, below 0, far above 1, one ulp below a grid point; '
+                'round 4: proportion vectors whose exact sum is within one ulp below / above 1, multiples of 0.1, 1/n repeated, passed as Python floats and as '
+                'numpy.float64 (different `sum` algorithms); tenths vectors whose float remainder puts the all-fixed corner one ulp above the last grid point; '
+                'pulse with one source proportion 0 followed by removal of that source vs removal followed by the lower-dimensional pulse; two pulses in a row; '
+                'total mass before/after every call; exact binary64 rounding of random / midpoint rationals; '
                 'non-trivial = distinct (function, grid mode, proportion kind, sum>1, sum=1, all zero)'
                 % (SIZES['quick'], SIZES['thorough']))
     chk.unproved = [
-        'floating-point round-off is not modelled: the theorems are about exact rational arithmetic on the generated formulas; the float implementation is compared with the exact model at 1e-9 (K) and the conservation identities are evaluated on the implementation at 1e-11 (L3)',
-        'the numpy loops / fancy indexing of the 17 functions are tied to the model by correspondence (K); translated (T) are the per-cell program of _admixture_intermediates, the coefficient vectors, guards, grid arguments and the written-back axis of every public function, the summand of Numerics.trapz and the diagonal value of phi_1D_to_2D',
-        'numpy.searchsorted is modelled as "first index whose entry is >= v" (equal to it for sorted grids); unsorted grids are outside the domain',
-        'C06_simplex_accept is a statement in exact arithmetic: a simplex vector that the float code rejects because a re-computed sum rounds above 1 is only found by L3 (key simplex_accept:*:roundoff)',
-        'filter_pops = iterated remove_pop in the order of the code is K-validated; proved are remove_pop = weighted sum and that two removals commute',
+        'floating-point round-off of the ARRAY arithmetic is not modelled: the conservation / mass / mixture theorems are about exact rational arithmetic on the generated formulas (C06_deposit_clamped covers what the clamps do when round-off pushes a mixed frequency past the ends of the grid); the float implementation is compared with the exact model at 1e-9 (K) and the identities are evaluated on the implementation at 1e-11 (L3)',
+        'the float proportion guard IS modelled (Gen.Admix.guardsFl, C06_simplex_accept_float / C06_simplex_reject_float) under the stated assumptions RoundNearest / RoundEFT on the rounding operator; that IEEE binary64 round-to-nearest-even satisfies them is not proved in Lean: the model\'s rndDouble and its two `sum` algorithms are compared exactly with the machine (K: rndDouble, builtin_sum, float_guard)',
+        'numpy fancy indexing / broadcasting of the 17 functions: translated (T) are the loop nest, scratch allocation, row index, fill order and operators, trapz axis, write-back axis (Gen.Admix.loopRows, consumed by the model, C06_loops / C06_loops_apply), the per-cell program, coefficient vectors, guards, grid arguments, Numerics.trapz summand, phi_1D_to_2D diagonal; that numpy executes these statements as the model reads them is tied by correspondence (K)',
+        'numpy.searchsorted is modelled as "first index whose entry is >= v" (side=left; side=right is translated too); unsorted grids are outside the domain',
+        'filter_pops: proved are total mass, remove_pop = weighted sum, two removals commute; that the iteration over sorted(toremove)[::-1] marginalises exactly the complement of tokeep is K/L3-validated',
     ]
-    chk.assumptions += ['grids are sorted (numpy.searchsorted = first index with entry >= value); numpy fancy-index assignment with a row index arange and '
-                        'distinct column indices (lower != upper) writes each target once — part of the model, checked by K only']
     ctx['chk'] = chk
     edge_cases(chk, ctx, rng, tier)
     splits_and_bookkeeping(chk, ctx, rng, tier)
